@@ -217,3 +217,160 @@ Definition helper17_body (L : bytes -> bytes) (target : bytes) (c : PS.cfg) (ti 
           Some (let! (body, _) := DC.fields_copy DC.all_fixed (graph17 target repl x cfs kept) [] cfs in Ok body)
       end
   end.
+
+(* ================================================================================================================ *)
+(* B. the real generators as instances of Pipeline.generator                                                       *)
+(* ================================================================================================================ *)
+Require Gengo.Model.Pipeline Gengo.Model.GenRuntimeDoc Gengo.Model.Determinism.
+Module PL := Gengo.Model.Pipeline.
+Module RD := Gengo.Model.GenRuntimeDoc.
+Module Det := Gengo.Model.Determinism.
+
+Definition no_out (r : PL.gresult) : PL.step_out := {| PL.so_body := []; PL.so_res := r; PL.so_defers := [] |}.
+
+(* ---- deepcopy (devpkg/deepcopygen/deepcopy.go) ---- *)
+
+(* GenerateType for the names in turn, from a given state (what doGenerate makes of the generator once the dispatch
+   has decided which types are called): the first call that does not return ends it *)
+Fixpoint dc_calls (fuel : nat) (fx : DC.fixes) (G : DC.pkg) (vis : list DC.method) (names : list bytes) (st : DC.gstate)
+  : res DC.gstate :=
+  match names with
+  | [] => Ok st
+  | n :: r => let! (_, st') := DC.gen_type fuel fx G vis false (n, []) st in dc_calls fuel fx G vis r st'
+  end.
+
+Section DeepCopyGen.
+  Variable fx : DC.fixes.
+  (* what go/types shows the generator of a loaded package: the declarations of the SOURCE files ... *)
+  Variable graph : PL.pkginfo -> DC.pkg.
+  (* ... and the methods declared by the file an earlier run left in the directory (part of the same load) *)
+  Variable vis : PL.pkginfo -> list DC.method.
+  (* the text of the templates: a parameter (checked per run by C17's harness, which matches the printed AST of every
+     generated method against them) *)
+  Variable print_method : DC.method -> bytes.
+  (* bound on the nesting of the on-demand chain (C17_generator_total: a sufficient one exists for every graph) *)
+  Variable fuel : nat.
+
+  Definition print_methods (ms : list DC.method) : bytes := concat (map print_method ms).
+
+  Definition dc_res (r : DC.gres) : PL.gresult := match r with DC.GNil => PL.RNil | DC.GSkip => PL.RSkip end.
+
+  (* one GenerateType call; the state kept between calls is g.processed.  A nil dereference or an unbounded
+     recursion is a call that never returns to Execute. *)
+  Definition dc_type (proc : list DC.key) (p : PL.pkginfo) (t : PL.tyinfo) : list DC.key * PL.step_out :=
+    match DC.gen_type fuel fx (graph p) (vis p) false (PL.ty_name t, []) (DC.mk_gstate proc []) with
+    | Ok (r, st) =>
+        (DC.gs_processed st,
+         {| PL.so_body := print_methods (DC.gs_out st); PL.so_res := dc_res r; PL.so_defers := [] |})
+    | _ => (proc, no_out PL.RDie)
+    end.
+
+  Definition deepcopy_gen : PL.generator := {|
+    PL.g_name := bs "deepcopy";
+    PL.g_alias := false;
+    PL.g_state := list DC.key;
+    PL.g_new := fun _ => [];                        (* reflect.New of the prototype: processed == nil *)
+    PL.g_type := dc_type;
+    PL.g_defer := fun st _ _ => (st, no_out PL.RNil);   (* the generator never calls Context.Defer: its `defers` are a
+                                                           local slice, run inside GenerateType *)
+    PL.g_fuel := 0
+  |}.
+End DeepCopyGen.
+
+(* the same generator for C04's model (Model/Determinism.v): a function of the loaded package and of the calls.
+   [dgraph] / [dvis] are the two parts of the load as above; [imports_of]: the import table of the file (a function of
+   what was rendered; import tracking is C03's subject) *)
+Section DeepCopyDet.
+  Variable dgraph : Det.pkg -> DC.pkg.
+  Variable dvis : Det.pkg -> list DC.method.
+  Variable print_method : DC.method -> bytes.
+  Variable imports_of : list DC.method -> Det.alist bytes.
+  Variable fuel : nat.
+
+  Definition is_ctype (c : Det.call) : bool := match Det.c_kind c with Det.CType => true | Det.CAlias => false end.
+
+  Definition deepcopy_det_gen : Det.gen :=
+    Det.mk_gen (bs "deepcopy") false
+      (fun p _ cs =>
+         match DC.gen_deepcopy fuel DC.all_fixed (dgraph p) (map Det.c_name (filter is_ctype cs)) (dvis p) with
+         | Ok ms => Det.mk_genout false false (print_methods print_method ms) (imports_of ms)
+         | _ => Det.mk_genout true false [] []           (* the process dies: the run fails *)
+         end).
+End DeepCopyDet.
+
+(* ---- partialstruct (devpkg/partialstruct/partialstruct.go) ---- *)
+
+Section PartialStructGen.
+  Variable cfg : PS.cfg.
+  Variable tracker : PL.pkginfo -> bytes -> bytes.       (* the import tracker of the package's file (C18's L) *)
+  Variable tin : PL.pkginfo -> PL.tyinfo -> PS.tinput.   (* what go/types and the doc tags show of one declaration *)
+  Variable print_gtype : PS.gtype -> bytes.              (* the text of the template: a parameter (C18's harness
+                                                            abstracts the generated file back to this IR) *)
+
+  Definition print_gtypes (ts : list PS.gtype) : bytes := concat (map print_gtype ts).
+
+  (* the generator has no state.  TGeneric (a replace value with type arguments) is outside C18's model: mapped to
+     "does not return", and excluded by hypothesis wherever it would matter. *)
+  Definition ps_type (st : unit) (p : PL.pkginfo) (t : PL.tyinfo) : unit * PL.step_out :=
+    (tt, match PS.generate_type (tracker p) (PL.pk_path p) cfg (tin p t) with
+         | PS.TSkip => no_out PL.RNil                  (* not enabled on its own tags: return nil *)
+         | PS.TErr _ => no_out PL.RErr                 (* fmt.Errorf(...), before anything is rendered *)
+         | PS.TPanic | PS.TGeneric => no_out PL.RDie
+         | PS.TGen g _ => {| PL.so_body := print_gtype g; PL.so_res := PL.RNil; PL.so_defers := [] |}
+         end).
+
+  Definition partialstruct_gen : PL.generator := {|
+    PL.g_name := bs "partialstruct";
+    PL.g_alias := false;
+    PL.g_state := unit;
+    PL.g_new := fun _ => tt;
+    PL.g_type := ps_type;
+    PL.g_defer := fun st _ _ => (st, no_out PL.RNil);
+    PL.g_fuel := 0
+  |}.
+End PartialStructGen.
+
+(* ---- runtimedoc (devpkg/runtimedocgen/runtimedoc.go) ---- *)
+
+Section RuntimeDocGen.
+  Variables fd fs : bool.                                 (* C16's two repairs *)
+  Variable desc : PL.pkginfo -> PL.tyinfo -> RD.tydesc.   (* what the generator sees of one type *)
+  Variable print_item : RD.item -> bytes.                 (* the text of one method / of the helper: a parameter *)
+  Variable fuel : nat.                                    (* bound on the callbacks of one package (one per call at most) *)
+
+  Definition print_items (l : list RD.item) : bytes := concat (map print_item l).
+
+  (* the package as C16's model takes it: the types in the order doGenerate visits them *)
+  Definition rd_view (p : PL.pkginfo) : RD.package := map (desc p) (PL.sort_by PL.ty_name (PL.pk_types p)).
+
+  (* what a step appended to the file *)
+  Definition new_items (st st' : RD.gstate) : list RD.item := skipn (List.length (RD.gs_body st)) (RD.gs_body st').
+
+  Definition rd_res (d : RD.tydesc) : PL.gresult :=
+    match RD.t_kind d with
+    | RD.TInterface => PL.RSkip
+    | _ => if negb (RD.t_exported d) then PL.RSkip else PL.RNil
+    end.
+
+  (* GenerateType; the generator state is C16's (processed, body so far — c.IsZero() reads it —, number of registered
+     callbacks, helperWritten); every callback is createHelperOnce (id 0) *)
+  Definition rd_type (st : RD.gstate) (p : PL.pkginfo) (t : PL.tyinfo) : RD.gstate * PL.step_out :=
+    let d := desc p t in
+    let st' := RD.GenerateType fd fs (rd_view p) d st in
+    (st', {| PL.so_body := print_items (new_items st st'); PL.so_res := rd_res d;
+             PL.so_defers := repeat 0 (RD.gs_defers st' - RD.gs_defers st) |}).
+
+  Definition rd_defer (st : RD.gstate) (p : PL.pkginfo) (id : nat) : RD.gstate * PL.step_out :=
+    let st' := RD.create_helper_once st in
+    (st', {| PL.so_body := print_items (new_items st st'); PL.so_res := PL.RNil; PL.so_defers := [] |}).
+
+  Definition runtimedoc_gen : PL.generator := {|
+    PL.g_name := bs "runtimedoc";
+    PL.g_alias := false;
+    PL.g_state := RD.gstate;
+    PL.g_new := fun _ => RD.gs_init;                  (* reflect.New: processed == nil, helperWritten == false *)
+    PL.g_type := rd_type;
+    PL.g_defer := rd_defer;
+    PL.g_fuel := fuel
+  |}.
+End RuntimeDocGen.
